@@ -25,6 +25,15 @@ type c06Step struct {
 	Tag   p9p.Tag
 	Await int // >= 0: wait until the tag is free from the client's view (every reply to it read)
 	Kind  int
+	Flush bool // the request is a Tflush of Old (possibly itself a duplicate-tag request)
+	Old   p9p.Tag
+}
+
+func (s c06Step) msg(i int) p9p.Message {
+	if s.Flush {
+		return p9p.MessageTflush{Oldtag: s.Old}
+	}
+	return c06Msg(i, s.Kind)
 }
 
 func c06Msg(i, kind int) p9p.Message {
@@ -85,7 +94,7 @@ func c06ScenarioH(name string, steps []c06Step, sync bool, mkh func() *scriptHan
 						}
 					}
 					st.freeAtSend = append(st.freeAtSend, tagFree(i))
-					if err := st.send(s.Tag, c06Msg(i, s.Kind)); err != nil {
+					if err := st.send(s.Tag, s.msg(i)); err != nil {
 						st.clientEnd = "write failed: " + err.Error()
 						return
 					}
@@ -155,6 +164,9 @@ func c06Check(state any, e *vsched.Exec) (string, []explore.Finding) {
 		case isDupErr(r.Message):
 			dupByTag[r.Tag]++
 			order = append(order, "dup")
+		case isFlushReply(r.Message) && flushStepFor(st.steps, own, r.Tag) >= 0:
+			own[flushStepFor(st.steps, own, r.Tag)]++
+			order = append(order, "flush")
 		default:
 			bad("stray-reply", "reply %s matches no request", Brief(r))
 		}
@@ -189,7 +201,16 @@ func c06Check(state any, e *vsched.Exec) (string, []explore.Finding) {
 		if i >= len(st.sent) {
 			continue // never sent (client ended early; reported below)
 		}
+		// a request named by a Tflush that was executed (not refused as a
+		// duplicate) may legitimately stay unanswered: that is C07's business
+		flushed := false
+		for k := i + 1; k < n; k++ {
+			if st.steps[k].Flush && st.steps[k].Old == st.steps[i].Tag && own[k] == 1 {
+				flushed = true
+			}
+		}
 		switch {
+		case own[i]+dup[i] == 0 && flushed:
 		case own[i]+dup[i] == 0:
 			bad("missing-reply", "request %d (tag %d) never received a reply", i, st.steps[i].Tag)
 		case own[i]+dup[i] > 1:
@@ -197,6 +218,12 @@ func c06Check(state any, e *vsched.Exec) (string, []explore.Finding) {
 		}
 		if calls[i] > 1 {
 			bad("dispatched-twice", "handler invoked %d times for request %d", calls[i], i)
+		}
+		if st.steps[i].Flush {
+			if calls[i] != 0 {
+				bad("flush-dispatched", "Tflush %d reached the handler", i)
+			}
+			continue
 		}
 		if own[i] == 1 && calls[i] != 1 {
 			bad("result-without-dispatch", "request %d got a result but the handler ran %d times", i, calls[i])
@@ -219,6 +246,24 @@ func c06Check(state any, e *vsched.Exec) (string, []explore.Finding) {
 	}
 	// (whether serving winds down after the client closed is C11's business)
 	return "order=" + strings.Join(order, ",") + fmt.Sprintf(" dups=%v", dup), fs
+}
+
+func isFlushReply(m p9p.Message) bool {
+	if _, ok := m.(p9p.MessageRflush); ok {
+		return true
+	}
+	e, ok := m.(p9p.MessageRerror)
+	return ok && strings.Contains(e.Ename, "unknown tag")
+}
+
+// flushStepFor finds the first not yet answered Tflush step sent on tag.
+func flushStepFor(steps []c06Step, own []int, tag p9p.Tag) int {
+	for i, s := range steps {
+		if s.Flush && s.Tag == tag && own[i] == 0 {
+			return i
+		}
+	}
+	return -1
 }
 
 func decodeFrame(f []byte) (*p9p.Fcall, int, error) {
@@ -295,6 +340,11 @@ func c06Scenarios() []*explore.Scenario {
 	for _, p := range c06Plans(2) {
 		out = append(out, c06Scenario(fmt.Sprintf("k2[%s]sync", planName(p)), p, true, 0))
 	}
+	// a Tflush that itself reuses an outstanding tag is a duplicate like any other request
+	out = append(out,
+		c06Scenario("dup-flush[t1 F1(old1)]", []c06Step{{Tag: 1, Await: -1, Kind: 0}, {Tag: 1, Await: -1, Flush: true, Old: 1}}, false, 1),
+		c06Scenario("dup-flush[t1 t2 F2(old2)]", []c06Step{{Tag: 1, Await: -1, Kind: 0}, {Tag: 2, Await: -1, Kind: 2}, {Tag: 2, Await: -1, Flush: true, Old: 2}}, false, 1),
+	)
 	out = append(out, c06Pipeline(300))
 	return out
 }
@@ -364,7 +414,9 @@ func runPlans(c *core.Ctx, plans []Plan) {
 		sc := scs[i]
 		if st.Err != "" {
 			c.EngineError("%s: %s", sc.Name, st.Err)
-			continue
+			if len(st.Viol) == 0 {
+				continue
+			}
 		}
 		c.Count(st.Execs, st.States, st.Steps, st.Execs-st.Pruned)
 		for k, v := range st.Outcomes {
